@@ -263,8 +263,8 @@ class C02(Check):
             if k == "joint":
                 return self.joint_oracle(case, sc)
             if k == "program":
-                from .. import qprog
-                return qprog.c02_program_oracle(self, case, sc)
+                from .. import qchecks
+                return qchecks.c02_program_oracle(self, case, sc)
         return None
 
     def search(self, tier, seed):
@@ -289,11 +289,8 @@ def _worker(widx, wseed, tier, check):
             f = hyp_search(strat, prop, derive_seed(wseed, tag), n, stats)
             if f:
                 failures.append(f)
-        try:
-            from .. import qprog
-        except ImportError:
-            qprog = None
-        if qprog is not None and hasattr(qprog, "c02_program_search"):
+        from .. import qchecks as qprog
+        if True:
             f = qprog.c02_program_search(check, sc, derive_seed(wseed, "prog"), 120 if quick else 2500, stats)
             if f:
                 failures.append(f)
